@@ -212,7 +212,7 @@ def build_module(module: str, cls: str, vtype: str, lit: str, deps: list[dict[st
 	return '\n'.join(lines) + '\n'
 
 
-def gen_pool(rng: random.Random, shape: str | None = None, n_variants: int | None = None, allow_invalid: bool = True, wide_p: float = 0.4, doc_p: float = 0.4, generic_p: float = 0.35, names: list[str] | None = None, box_p: float = 0.35, swap_p: float = 0.2) -> dict[str, Any]:
+def gen_pool(rng: random.Random, shape: str | None = None, n_variants: int | None = None, allow_invalid: bool = True, wide_p: float = 0.4, doc_p: float = 0.4, generic_p: float = 0.35, names: list[str] | None = None, box_p: float = 0.35, swap_p: float = 0.2, odd_p: float = 0.3) -> dict[str, Any]:
 	"""Returns {'shape', 'modules': [names, index 0 = top], 'variants': {name: [ {src, imports, note} ]}, 'order': names}."""
 	shape = shape or rng.choice(sorted(SHAPES))
 	n, edges = SHAPES[shape]
@@ -277,7 +277,34 @@ def gen_pool(rng: random.Random, shape: str | None = None, n_variants: int | Non
 				pool['edges'].append([names[i], 'src.gbox'])
 	if rng.random() < swap_p:
 		add_swap_trio(pool)
+	if rng.random() < odd_p:
+		add_odd_modules(pool, rng)
 	return pool
+
+
+# standalone modules of unusual but valid shape (no module imports them): empty files, comment / docstring only, numeric and string
+# literal forms, textually identical siblings, blank tails, long tokens, non-ASCII text
+ODD_TEXTS = [
+	'',
+	'\n',
+	'# only a comment\n',
+	'"""Only a docstring"""\n',
+	'def odd_nums() -> float:\n\ta = 1e3\n\tb = 0x10\n\tc = -0\n\td = 1_000\n\te = 1.\n\tg = .5\n\treturn a\n',
+	'def odd_consts() -> bool:\n\ta = None\n\tb = True\n\tc = False\n\treturn b\n',
+	'def odd_strs() -> str:\n\ta = \'\'\n\tb = \' \'\n\tc = \'\\\\\'\n\td = \'q"q\'\n\te = "it\'s"\n\tg = \'\\n\\t\'\n\treturn a\n',
+	'def odd_dup(v: int, limits: dict[str, str]) -> int:\n\tt = [0, 0]\n\tu = v + v + v\n\treturn max(v, v)\n',
+	'class OddEmpty:\n\tpass\ndef odd_pass() -> None:\n\tpass\n\n\n\n',
+	'def odd_long() -> str:\n\treturn \'' + 'x' * 500 + '\'\n',
+	'def odd_text() -> str:\n\t# \u30b3\u30e1\u30f3\u30c8\n\ts = \'caf\u00e9 \u2603 \u65e5\u672c\u8a9e\'\n\treturn s\n',
+]
+
+
+def add_odd_modules(pool: dict[str, Any], rng: random.Random) -> None:
+	for name in ('src.odd0', 'pkg.odd1'):
+		if name in pool['variants']:
+			continue
+		pool['modules'] = pool['modules'] + [name]
+		pool['variants'][name] = [{'src': t, 'imports': [], 'note': 'odd'} for t in rng.sample(ODD_TEXTS, 3)]
 
 
 def core(pool: dict[str, Any]) -> list[str]:
@@ -395,4 +422,4 @@ def fixed_pool(which: int = 0) -> dict[str, Any]:
 	"""Small deterministic pools for canonical short histories and enumeration passes."""
 	shapes = ['chain3', 'diamond', 'chain2', 'vee']
 	rng = random.Random(FIXED_POOL_SEEDS[which % 4])
-	return gen_pool(rng, shape=shapes[which % 4], n_variants=3, allow_invalid=False, wide_p=1.0 if which % 2 == 0 else 0.5, doc_p=1.0 if which % 2 == 0 else 0.5, generic_p=1.0 if which % 2 == 0 else 0.5, box_p=1.0 if which in (0, 3) else 0.0, swap_p=1.0 if which == 1 else 0.0)
+	return gen_pool(rng, shape=shapes[which % 4], n_variants=3, allow_invalid=False, wide_p=1.0 if which % 2 == 0 else 0.5, doc_p=1.0 if which % 2 == 0 else 0.5, generic_p=1.0 if which % 2 == 0 else 0.5, box_p=1.0 if which in (0, 3) else 0.0, swap_p=1.0 if which == 1 else 0.0, odd_p=1.0 if which in (1, 3) else 0.0)
